@@ -427,6 +427,7 @@ const (
 	node2ID   = 0x3C3C3C3D
 	bigID     = 0x0BADBAD1 // message id of the oversized (9-byte) message
 	static2ID = 0x155      // static CAN-ID of the second node's message (when it has one)
+	gwID      = 0x0000065A // id of the message sent through the node's second (gateway) interface
 )
 
 func (s *state) runW(mid, nid uint32, npool int, ops []wop) {
@@ -439,7 +440,7 @@ func (s *state) runW(mid, nid uint32, npool int, ops []wop) {
 	if mid%2 == 0 {
 		static2 = static2ID
 	}
-	input := fmt.Sprintf("W;%d:%d:%d:%d:%d:%d;%d;%s", mid, nid, sibID, node2ID, bigID, static2, npool, strings.Join(os_, " "))
+	input := fmt.Sprintf("W;%d:%d:%d:%d:%d:%d:%d;%d;%s", mid, nid, sibID, node2ID, bigID, static2, gwID, npool, strings.Join(os_, " "))
 	s.hist["W/history"]++
 	defer func() {
 		if r := recover(); r != nil {
@@ -449,10 +450,24 @@ func (s *state) runW(mid, nid uint32, npool int, ops []wop) {
 	}()
 
 	msg := acmelib.NewMessage("msg", acmelib.MessageID(mid), 8)
-	node := acmelib.NewNode("node", acmelib.NodeID(nid), 1)
+	// the node is a gateway: its second interface sends a message of its own on another bus
+	node := acmelib.NewNode("node", acmelib.NodeID(nid), 2)
 	iface := node.Interfaces()[0]
+	gwIface := node.Interfaces()[1]
 	bus := acmelib.NewBus("bus")
 	net := acmelib.NewNetwork("net")
+	busG := acmelib.NewBus("busG")
+	gwMsg := acmelib.NewMessage("gwmsg", acmelib.MessageID(gwID), 8)
+	if err := gwIface.AddSentMessage(gwMsg); err != nil {
+		panic("harness: " + err.Error())
+	}
+	if err := busG.AddNodeInterface(gwIface); err != nil {
+		panic("harness: " + err.Error())
+	}
+	if err := net.AddBus(busG); err != nil {
+		panic("harness: " + err.Error())
+	}
+	gwOnBus, ifaceGone := true, false
 	// a sibling message on the same interface and a bystander node/interface/message: they make the
 	// remove-all paths remove more than one thing and are checked by the Go predicate only
 	sib := acmelib.NewMessage("msg3", acmelib.MessageID(sibID), 8)
@@ -551,9 +566,14 @@ func (s *state) runW(mid, nid uint32, npool int, ops []wop) {
 			bus.RemoveAllNodeInterfaces()
 			onBus, onBus2 = false, false
 		case "Ri":
+			// interface number 0: the observed one first, then (renumbered) the gateway one
 			err = node.RemoveInterface(0)
 			if err == nil {
-				onBus = false
+				if !ifaceGone {
+					onBus, ifaceGone = false, true
+				} else {
+					gwOnBus = false
+				}
 				riUsed = true
 			}
 		case "Na":
@@ -624,7 +644,7 @@ func (s *state) runW(mid, nid uint32, npool int, ops []wop) {
 		if msg.HasStaticCANID() {
 			hs = 1
 		}
-		obs = append(obs, fmt.Sprintf("%s:%d:%d:%d:%d:%d", flag, got, uint32(msg.ID()), uint32(msg.Priority()), hs, uint32(node.ID())))
+		obs = append(obs, fmt.Sprintf("%s:%d:%d:%d:%d:%d:%d", flag, got, uint32(msg.ID()), uint32(msg.Priority()), hs, uint32(node.ID()), uint32(gwMsg.GetCANID())))
 
 		// --- property: the case split of GetCANID, on the implementation's own public state
 		sender := msg.SenderNodeInterface()
@@ -665,7 +685,7 @@ func (s *state) runW(mid, nid uint32, npool int, ops []wop) {
 			n        *acmelib.Node
 			att, bus bool
 			onb      *acmelib.Bus
-		}{{"sibling", sib, node, sibAttached, onBus, bus}, {"bystander", msg2, node2, true, onBus2, bus}, {"second-bus", msg4, node3, true, true, busB}, {"oversized", big, node, bigAttached, onBus, bus}} {
+		}{{"sibling", sib, node, sibAttached, onBus, bus}, {"bystander", msg2, node2, true, onBus2, bus}, {"second-bus", msg4, node3, true, true, busB}, {"oversized", big, node, bigAttached, onBus, bus}, {"gateway", gwMsg, node, true, gwOnBus, busG}} {
 			ow, ost := uint32(other.m.ID()), "detached"
 			if other.att {
 				ost = "interface-without-bus"
@@ -1210,6 +1230,7 @@ func generate(s *state, r *rng, thorough bool) {
 					}
 				case 4:
 					if riUsed {
+						// the second RemoveInterface takes the gateway interface, a third is refused
 						ops = append(ops, wop{c: "Ri"})
 					} else {
 						ops = append(ops, wop{c: "N", v: node2ID})
